@@ -191,7 +191,7 @@ From FluteV Require Import Proofs.C02RS Proofs.C02SessionRS Proofs.C01RS.
 Theorem C16_late_join_delivers_rs :
   forall rep raptor_src c content oti E toi max fid files inst md5,
   is_rs (c_fec c) = true -> filedesc_accepts c = true -> c_tlen c = lenN content -> 0 < c_tlen c ->
-  (1 <= c_window c)%nat -> rep_len_ok rep ->
+  (1 <= c_window c)%nat -> rep_len_ok rep -> rs_rep_sym_ok rep c content ->
   c_e c < 65536 ->
   oti_matches_rs c oti -> fdt_entry_for files inst toi oti (c_tlen c) md5 ->
   writer_accepts E toi -> writes_succeed E toi -> md5_good E content md5 ->
@@ -209,7 +209,7 @@ Print Assumptions C16_late_join_delivers_rs.
 Theorem C16_any_superset_of_a_cycle_delivers_rs :
   forall rep raptor_src c content oti E toi max fid files inst md5,
   is_rs (c_fec c) = true -> filedesc_accepts c = true -> c_tlen c = lenN content -> 0 < c_tlen c ->
-  (1 <= c_window c)%nat -> rep_len_ok rep ->
+  (1 <= c_window c)%nat -> rep_len_ok rep -> rs_rep_sym_ok rep c content ->
   c_e c < 65536 ->
   oti_matches_rs c oti -> fdt_entry_for files inst toi oti (c_tlen c) md5 ->
   writer_accepts E toi -> writes_succeed E toi -> md5_good E content md5 ->
@@ -226,7 +226,7 @@ Print Assumptions C16_any_superset_of_a_cycle_delivers_rs.
 Theorem C16_late_join_then_last_transfer_rs :
   forall rep raptor_src c content oti E toi max fid files inst md5,
   is_rs (c_fec c) = true -> filedesc_accepts c = true -> c_tlen c = lenN content -> 0 < c_tlen c ->
-  (1 <= c_window c)%nat -> rep_len_ok rep ->
+  (1 <= c_window c)%nat -> rep_len_ok rep -> rs_rep_sym_ok rep c content ->
   c_e c < 65536 ->
   oti_matches_rs c oti -> fdt_entry_for files inst toi oti (c_tlen c) md5 ->
   writer_accepts E toi -> writes_succeed E toi -> md5_good E content md5 ->
@@ -262,6 +262,7 @@ Proof. exact exr_late_join_by_theorem. Qed.
 Theorem C16_session_late_join_rs :
   forall rep raptor_src cfg complete now m content E rcfg nowr id sct,
   sender_ok_rs cfg now m content -> doc_fits cfg complete now m -> rep_len_ok rep ->
+  rs_rep_sym_ok rep (obj_ecfg_rs cfg m 1 false false) content ->
   receiver_ok_rs rep E rcfg nowr sct cfg now m content ->
   forall (window1 : nat) (debug1 : bool) (j window : nat) (closable debug fti : bool),
   (1 <= window1)%nat -> (1 <= window)%nat ->
@@ -279,6 +280,7 @@ Print Assumptions C16_session_late_join_rs.
 Theorem C16_session_late_join_general_rs :
   forall rep raptor_src cfg complete now m content E rcfg nowr id sct,
   sender_ok_rs cfg now m content -> doc_fits cfg complete now m -> rep_len_ok rep ->
+  rs_rep_sym_ok rep (obj_ecfg_rs cfg m 1 false false) content ->
   receiver_ok_rs rep E rcfg nowr sct cfg now m content ->
   forall (window : nat) (closable debug fti : bool) (pre : list apkt), (1 <= window)%nat ->
   Forall (fun p => a_toi p = m_toi m) pre ->
@@ -603,7 +605,7 @@ Theorem C16_rs_object_late_among_other_traffic : forall E parse_fdt cfg oti cont
   rs_scheme_ok oti L -> rs_blocks_ok oti L -> toi <> 0 -> parse_fdt d = Some inst ->
   fdt_entry_for (fi_files inst) (fi_oti inst) toi oti L md5 ->
   writer_accepts E toi -> writes_succeed E toi -> md5_good E content md5 ->
-  rs_oracle_mds E oti content rep toi ->
+  rs_oracle_mds E oti content rep toi -> rs_rep_sized oti rep ->
   rs_mem_need oti L <= cf_max_cache cfg -> nb_blocks_of oti L <= 4097 ->
   Forall (fun p => a_toi p = 0 -> fdt_copy cfg inst now id foti d p) evs ->
   (exists p, In p evs /\ a_toi p = 0) ->
@@ -876,6 +878,7 @@ Print Assumptions C16_session_late_join_nocode_any_flag_before_fdt.
 Theorem C16_session_late_join_general_rs_any_flag_before_fdt :
   forall rep raptor_src cfg complete now m content E rcfg nowr id sct,
   sender_ok_rs cfg now m content -> doc_fits cfg complete now m -> rep_len_ok rep ->
+  rs_rep_sym_ok rep (obj_ecfg_rs cfg m 1 false false) content ->
   receiver_ok_rs rep E rcfg nowr sct cfg now m content ->
   forall (window : nat) (closable debug fti : bool) (pre : list apkt), (1 <= window)%nat ->
   Forall (fun p => a_toi p = m_toi m) pre ->
@@ -892,6 +895,7 @@ Print Assumptions C16_session_late_join_general_rs_any_flag_before_fdt.
 Theorem C16_session_late_join_rs_any_flag_before_fdt :
   forall rep raptor_src cfg complete now m content E rcfg nowr id sct,
   sender_ok_rs cfg now m content -> doc_fits cfg complete now m -> rep_len_ok rep ->
+  rs_rep_sym_ok rep (obj_ecfg_rs cfg m 1 false false) content ->
   receiver_ok_rs rep E rcfg nowr sct cfg now m content ->
   forall (window1 : nat) (closable1 debug1 : bool) (j window : nat) (closable debug fti : bool),
   (1 <= window1)%nat -> (1 <= window)%nat ->
@@ -1051,7 +1055,7 @@ Theorem C16_rs_object_late_among_other_traffic_any_flag_before_fdt :
   rs_scheme_ok oti L -> rs_blocks_ok oti L -> toi <> 0 -> parse_fdt d = Some inst ->
   fdt_entry_for (fi_files inst) (fi_oti inst) toi oti L md5 ->
   writer_accepts E toi -> writes_succeed E toi -> md5_good E content md5 ->
-  rs_oracle_mds E oti content rep toi ->
+  rs_oracle_mds E oti content rep toi -> rs_rep_sized oti rep ->
   rs_mem_need oti L <= cf_max_cache cfg -> nb_blocks_of oti L <= 4097 ->
   Forall (fun p => a_toi p <> 0) pre ->
   fdt_copy cfg inst now id foti d pf ->
